@@ -3,6 +3,9 @@ import M3d.Lemmas.TriCert
 import M3d.Lemmas.TriMore
 import M3d.Lemmas.TriProfile
 import M3d.Lemmas.TriMono
+import M3d.Lemmas.TriScale
+import M3d.Lemmas.TriWinding
+import M3d.Lemmas.TriProfileMfd
 import M3d.Lemmas.Surface
 /-!
 # C14 — triangulation covers the polygon exactly
@@ -104,38 +107,130 @@ example :
     certOk c 4 true (loopEdges [4]) [(0, 1, 2), (0, 3, 2)] = false := by
   decide +kernel
 
-/-- **`triangulation_cover_partial`** (the winding-number form of "inside, non-overlapping,
-covering").  If the returned triangles glue to the boundary without T-junctions (the unrefined
-edge conditions: `Glued bnd (dirEdges tris)`, what `edgesOkG false` decides), then around EVERY
-point `p` the winding numbers (signed crossings of the ray from `p`) of all triangles add up to
-the winding number of the input boundary.
+/-! ### placement and unit of length -/
 
-Geometric reading: a positively oriented non-degenerate triangle has winding number 1 around the
-points strictly inside it and 0 around the points strictly outside, so the number of triangles
-covering a generic point equals the boundary's winding number there — 1 inside a correctly
-oriented simple region (outer loops minus holes), 0 outside: the triangles do not overlap, stay
-inside and cover.  What is missing from a full mechanisation (hence `_partial`):
-(a) `winding (triangle) p = [p strictly inside]` for an oriented triangle and `p` off its edge
-lines (a finite case analysis over the y-order of the corners, not done);
-(b) the polygonal Jordan theorem "the winding number of a simple, correctly oriented boundary is
-the indicator of the even-odd interior" for the INPUT (a fact about the input, not the output);
-(c) for certificates that need T-junction refinement, subdivision-additivity of `crossing` for
-`p` off the segment (the generic chain statement is clause 4 of
-`triangulation_certificate_sound`). -/
-theorem triangulation_cover_partial (c : Nat → P2 K) (bnd : List Edge) (tris : List Tri)
-    (h : Glued bnd (dirEdges tris)) (p : P2 K) :
+/-- **`cert_similarity_invariant`.**  The checker's verdict does not depend on the placement or on
+the unit of length: for every similarity `p ↦ (a·x − b·y + e, b·x + a·y + f)` with `(a,b) ≠ 0`
+(all orientation-preserving rigid placements — rotation by any angle, translation — composed with a
+uniform scaling by `√(a²+b²)`), the same triangle list is a valid certificate for the mapped
+coordinates iff it is one for the original coordinates.  So the property "the returned triangles
+triangulate the region" is itself invariant: an implementation whose output for `k·P` is not the
+`k`-multiple of a valid triangulation of `P` violates it at `k·P`, whatever the unit. -/
+theorem cert_similarity_invariant (a b e f : K) (h : a ≠ 0 ∨ b ≠ 0) (c : Nat → P2 K) (nv : Nat)
+    (cw : Bool) (bnd : List Edge) (tris : List Tri) :
+    certOk (fun i => simMap a b e f (c i)) nv cw bnd tris = certOk c nv cw bnd tris :=
+  certOk_simMap h c nv cw bnd tris
+
+/-- **`cert_scale_invariant`** (what the driver uses for `S k` op lines: the Go code was given
+the coordinates `k · pts0`, the checker is run on `pts0`).  For every factor `k ≠ 0`:
+
+* `certOk` on the scaled coordinate table ⇔ `certOk` on the unscaled one, and likewise the tolerant
+  variant `edgesOkG` that classifies the known finding;
+* the scaled coordinate table is the coordinate table of the scaled point list (what the driver's
+  `coordFn` builds), including its default value;
+* shoelace areas scale by `k²`: the area printed for the scaled instance is `k²` times the area of
+  the unscaled one, and the triangle areas scale alike, so clause 5 of
+  `triangulation_certificate_sound` at one scale is the same equation at every other. -/
+theorem cert_scale_invariant (k : K) (hk : k ≠ 0) (c : Nat → P2 K) (nv : Nat) (cw : Bool)
+    (bnd : List Edge) (tris : List Tri) :
+    (certOk (fun i => scaleP k (c i)) nv cw bnd tris = true ↔ certOk c nv cw bnd tris = true) ∧
+    (∀ strict, edgesOkG strict (fun i => scaleP k (c i)) nv cw bnd tris = edgesOkG strict c nv cw bnd tris) ∧
+    (∀ (l : List (P2 K)) (i : Nat), (l.map (scaleP k)).getD i ⟨0, 0⟩ = scaleP k (l.getD i ⟨0, 0⟩)) ∧
+    (∀ l : List (P2 K), shoelace2 (l.map (scaleP k)) = k * k * shoelace2 l) ∧
+    sumF (triOrient fun i => scaleP k (c i)) tris = k * k * sumF (triOrient c) tris := by
+  have hf : (fun i => scaleP k (c i)) = fun i => simMap k 0 0 0 (c i) := by
+    funext i; exact scaleP_eq_simMap k (c i)
+  refine ⟨?_, ?_, getD_map_scaleP k, shoelace2_scaleP k, ?_⟩
+  · rw [hf, certOk_simMap (Or.inl hk)]
+  · intro strict; rw [hf, edgesOkG_simMap (Or.inl hk)]
+  · rw [hf]
+    induction tris with
+    | nil => simp [sumF_nil]
+    | cons t ts ih => rw [sumF_cons, sumF_cons, ih, triOrient_simMap]; ring
+
+/-- Non-vacuity: the unit square in units of 2⁻²⁰ (and rotated by the 3-4-5 angle, translated):
+same verdicts as at unit scale, for the valid and for the invalid triangle list. -/
+example :
+    let c : Nat → P2 Rat := fun i => ([⟨0, 0⟩, ⟨0, 1⟩, ⟨1, 1⟩, ⟨1, 0⟩] : List (P2 Rat)).getD i ⟨0, 0⟩
+    certOk (fun i => scaleP (1 / 1048576) (c i)) 4 true (loopEdges [4]) [(0, 1, 2), (0, 2, 3)] = true ∧
+    certOk (fun i => scaleP (1 / 1048576) (c i)) 4 true (loopEdges [4]) [(0, 1, 2), (0, 3, 2)] = false ∧
+    certOk (fun i => simMap (3 / 5) (4 / 5) 7 (-2) (c i)) 4 true (loopEdges [4]) [(0, 1, 2), (0, 2, 3)] = true := by
+  decide +kernel
+
+/-! ### pointwise: inside, non-overlapping, covering -/
+
+/-- **`triangulation_winding_sum`** (chain level → winding numbers, T-junctions included).  For
+EVERY certificate accepted by the checker and EVERY point `p` of the plane, the winding numbers
+(signed crossings of the ray from `p`, half-open rule) of all returned triangles add up to the
+winding number of the input boundary.  The T-junction refinement is covered because the signed
+crossing is additive under subdivision of an edge at a vertex inside it, around every point
+(`crossing_segAdditive`) — so this is clause 4 of `triangulation_certificate_sound` instantiated
+with the crossing functional. -/
+theorem triangulation_winding_sum (c : Nat → P2 K) (nv : Nat) (cw : Bool) (bnd : List Edge)
+    (tris : List Tri) (h : certOk c nv cw bnd tris = true) (p : P2 K) :
     sumF (fun t => winding c p (triEdges t)) tris = winding c p bnd := by
+  have he := (certOk_iff_edgesOk c nv cw bnd tris).1 h
   have h1 : sumF (fun t => winding c p (triEdges t)) tris = sumF (crossing c p) (dirEdges tris) := by
     unfold dirEdges; rw [sumF_flatMap]; rfl
-  rw [h1]; exact glued_sum h (crossing c p) (crossing_antisymm c p)
+  rw [h1]
+  exact edgesOk_chain he (crossing c p) (crossing_antisymm c p) (crossing_segAdditive c p)
 
-/-- Non-vacuity and a sanity check of the functional: around the centre of the unit square
-(clockwise) each of the two triangles of the split has winding number 0 or −1, the boundary −1. -/
+/-- **`triangle_winding_indicator`.**  The winding number of a non-degenerate triangle oriented
+as the flag `cw` says (clockwise: `orient < 0`) is `∓1` (`−1` for clockwise) around every point
+strictly inside it (`insideTri`: strictly on the inner side of all three edges) and `0` around every
+point strictly outside it (`outsideTri`: strictly on the outer side of some edge).  Proved from the
+barycentric identities `Σ oᵢ = O`, `Σ oᵢ·(yᵢ − p.y) = 0` by a case analysis over which corners lie
+above the ray. -/
+theorem triangle_winding_indicator (c : Nat → P2 K) (cw : Bool) (t : Tri) (p : P2 K)
+    (ho : if cw = true then triOrient c t < 0 else 0 < triOrient c t) :
+    (insideTri c cw t p = true → winding c p (triEdges t) = cwSign cw) ∧
+    (outsideTri c cw t p = true → winding c p (triEdges t) = 0) :=
+  tri_winding c cw t p ho
+
+/-- **`triangulation_cover_partial`** ("lie inside the region, do not overlap, cover it", pointwise).
+Let the checker accept `tris` for the boundary `bnd`, and let `p` be any point that lies strictly
+inside or strictly outside each returned triangle (i.e. not on a triangle edge — all points except
+a set of measure zero).  Then **the number of triangles containing `p` equals the winding number of
+the input boundary around `p`** (up to the orientation sign: `−winding` for clockwise output).
+Consequently, wherever the input boundary winds once in its documented direction (`winding = ∓1`)
+EXACTLY ONE triangle contains `p`, and wherever it does not wind (`winding = 0`) NO triangle does:
+the triangles do not overlap, stay inside the region and cover it.
+
+Now proved: (a) the triangle winding number is the indicator of its interior
+(`triangle_winding_indicator`), (c) T-junction refinement (`triangulation_winding_sum`).
+Still `_partial` because of (b): that the boundary of a *simple, correctly oriented* region has
+winding number `∓1` at its interior points and `0` outside (the polygonal Jordan curve theorem) is a
+fact about the INPUT which is not mechanised; the theorem is stated relative to the boundary's
+winding number, which is the standard definition of the region enclosed by oriented loops
+(outer loops minus holes). -/
+theorem triangulation_cover_partial (c : Nat → P2 K) (nv : Nat) (cw : Bool) (bnd : List Edge)
+    (tris : List Tri) (h : certOk c nv cw bnd tris = true) (p : P2 K)
+    (hgen : ∀ t ∈ tris, insideTri c cw t p = true ∨ outsideTri c cw t p = true) :
+    (((tris.filter fun t => insideTri c cw t p).length : K) = cwSign cw * winding c p bnd) ∧
+    (winding c p bnd = cwSign cw → (tris.filter fun t => insideTri c cw t p).length = 1) ∧
+    (winding c p bnd = 0 → (tris.filter fun t => insideTri c cw t p).length = 0) := by
+  have hs := triangulation_winding_sum c nv cw bnd tris h p
+  have ho := (triangulation_certificate_sound c nv cw bnd tris h).2.1
+  have hc := sum_winding_count c cw p tris ho hgen
+  have hsq : cwSign cw * cwSign cw = (1 : K) := by cases cw <;> simp [cwSign]
+  have hcount : ((tris.filter fun t => insideTri c cw t p).length : K) = cwSign cw * winding c p bnd := by
+    rw [← hs, hc, ← mul_assoc, hsq, one_mul]
+  refine ⟨hcount, fun hw => ?_, fun hw => ?_⟩
+  · rw [hw, hsq] at hcount
+    exact_mod_cast hcount
+  · rw [hw, mul_zero] at hcount
+    exact_mod_cast hcount
+
+/-- Non-vacuity and a sanity check of the functional: around the point `(1/4,1/2)` of the unit
+square (clockwise) the two triangles of the split have winding numbers −1 and 0, the boundary −1;
+exactly one triangle contains the point, and it is strictly inside or outside each. -/
 example :
     let c : Nat → P2 Rat := fun i => ([⟨0, 0⟩, ⟨0, 1⟩, ⟨1, 1⟩, ⟨1, 0⟩] : List (P2 Rat)).getD i ⟨0, 0⟩
     let p : P2 Rat := ⟨1/4, 1/2⟩
     winding c p (triEdges (0, 1, 2)) = -1 ∧ winding c p (triEdges (0, 2, 3)) = 0 ∧
-      winding c p (loopEdges [4]) = -1 := by
+      winding c p (loopEdges [4]) = -1 ∧
+      insideTri c true (0, 1, 2) p = true ∧ outsideTri c true (0, 2, 3) p = true ∧
+      ([(0, 1, 2), (0, 2, 3)].filter fun t => insideTri c true t p).length = 1 := by
   decide +kernel
 
 /-- **Discrete Stokes** in the form used for `diagonals_cancel` and the certificate: interior edges
@@ -320,14 +415,39 @@ example :
     closedManifold (profileSoup [(0, 1, 2), (0, 2, 3)]) = true := by
   decide +kernel
 
-/-- **`profile_mesh_manifold_partial`.**  Manifoldness of the extruded soup is *decided per
+/-- **`profile_mesh_edge_manifold`** (universal, from the cap certificate).  If the cap triangles
+`tris` glue to a region with boundary `bnd` (`Glued`: what the certificate checker establishes for
+the caps), the boundary consists of closed oriented curves (`ClosedCurves`: every boundary vertex
+has exactly one outgoing and one incoming boundary edge, no loop edge — true of every list of closed
+polygons), and no cap triangle repeats a vertex, then `ProfileMesh`'s soup is **closed, consistently
+oriented and edge-manifold** (`EdgeBalanced`: every directed edge occurs exactly once and its reverse
+exactly once, i.e. every undirected edge is shared by exactly two triangles traversing it in opposite
+directions) and has no degenerate face.  Proof: the directed edges of the soup are a rearrangement of
+six families (bottom, top, two quad diagonals, two verticals) over the swap-closed, duplicate-free
+edge set "caps + reversed boundary". -/
+theorem profile_mesh_edge_manifold (bnd : List Edge) (tris : List Tri) (h : Glued bnd (dirEdges tris))
+    (hc : ClosedCurves bnd) (hd : NoDegenerate tris) :
+    EdgeBalanced (profileSoup tris) ∧ NoDegenerate (profileSoup tris) :=
+  ⟨profileSoup_edgeBalanced h hc, profileSoup_noDegenerate h hc hd⟩
+
+/-- Non-vacuity: the square split by a diagonal satisfies the hypotheses. -/
+example :
+    gluedOk (loopEdges [4]) (dirEdges [(0, 1, 2), (0, 2, 3)]) = true ∧
+    closedCurves (loopEdges [4]) = true ∧ noDegenerate [(0, 1, 2), (0, 2, 3)] = true ∧
+    edgeBalanced (profileSoup [(0, 1, 2), (0, 2, 3)]) = true := by
+  decide +kernel
+
+/-- **`profile_mesh_manifold_partial`.**  Full manifoldness of the extruded soup (in addition to
+`profile_mesh_edge_manifold`: every vertex fan is a single cycle, no pinched vertex) is *decided per
 instance* by the proved decider of the shared surface library: whenever the driver's
 `closedManifold (…)` evaluates to `true` on a real `ProfileMesh` output, that output is a
 closed, consistently oriented manifold (`ClosedManifold`: every directed edge matched by its
 reverse exactly once, every vertex fan a single cycle, no degenerate face).
 What is missing for the universal statement "certified caps ⇒ `ClosedManifold (profileSoup tris)`":
-the counting argument over the three edge classes (cap, vertical, quad diagonal) and the vertex
-fans (cap link path + two side triangles per boundary edge) is not mechanised. -/
+`FanConnected`.  It does NOT follow from the combinatorial gluing conditions alone (a closed fan of
+triangles around a boundary vertex next to its boundary fan satisfies `Glued`); excluding it needs
+the geometric part of the certificate (orientation of all triangles + angle sum at the vertex), which
+is not mechanised. -/
 theorem profile_mesh_manifold_partial (soup : List Tri) (h : closedManifold soup = true) :
     ClosedManifold soup :=
   (closedManifold_iff soup).1 h
